@@ -102,6 +102,10 @@ func sameVal(a, b interface{}) bool {
 	return reflect.DeepEqual(na, nb)
 }
 
+// output of the previous case's direct MarshalJSON call and a private copy of it (history check)
+var c02held, c02heldCopy []byte
+var c02heldG, c02heldGCopy []byte
+
 var c02strings = []string{"", "a", "name", "Zürich", "日本", "with \"quotes\"", "back\\slash", "tab\there", "line\nbreak", "<html>&amp;", "emoji 😀", " sep", "nul\\u0000esc", "0", "null", "true", "unit\x1fsep", "bell\a", "del\x7f"}
 var c02keys = []string{"name", "kind", "id", "a", "b", "ünï", "key with space", "", "Type", "properties", "geometry", "coordinates", "x.y", "$dollarless", "unit\x1fsep", "del\x7f", "bell\a"}
 
@@ -247,6 +251,10 @@ func init() {
 			return
 		}
 		c.Eval()
+		if c02heldG != nil && !bytes.Equal(c02heldG, c02heldGCopy) {
+			c.Fail("", "bytes returned by an earlier Geometry.MarshalJSON call were overwritten by a later marshal", map[string]interface{}{"earlier_output_now": string(c02heldG), "earlier_output_then": string(c02heldGCopy)})
+		}
+		c02heldG, c02heldGCopy = data, append([]byte{}, data...)
 		if !json.Valid(data) {
 			c.Fail("", "marshalled geometry is not valid JSON", map[string]interface{}{"case": d(), "json": string(data)})
 			return
@@ -411,6 +419,15 @@ func init() {
 					if pv, st := h.Catch(func() { data, err = json.Marshal(f) }); pv != nil || err != nil {
 						c.Fail("", "marshalling a feature to JSON failed or panicked", map[string]interface{}{"case": d(), "panic": sv(pv), "err": sv(err), "stack": st})
 						return
+					}
+					// the bytes returned by a direct MarshalJSON call stay the caller's: hold them across later marshals
+					if direct, derr := f.MarshalJSON(); derr != nil || !bytes.Equal(direct, data) {
+						c.Fail("", "Feature.MarshalJSON differs from json.Marshal(feature)", map[string]interface{}{"case": d(), "err": sv(derr)})
+					} else {
+						if c02held != nil && !bytes.Equal(c02held, c02heldCopy) {
+							c.Fail("", "bytes returned by an earlier Feature.MarshalJSON call were overwritten by a later marshal", map[string]interface{}{"earlier_output_now": string(c02held), "earlier_output_then": string(c02heldCopy)})
+						}
+						c02held, c02heldCopy = direct, append([]byte{}, direct...)
 					}
 					var f2 *geojson.Feature
 					if pv, st := h.Catch(func() { f2, err = geojson.UnmarshalFeature(data) }); pv != nil {
